@@ -147,12 +147,12 @@ CHECKS["C10"] = {
 
 CHECKS["C13"] = {
     "level": "fault_enumeration",
-    "jobs": [J("runners", "c13", "TestRunners", 2500, 60000, 8)],
+    "jobs": [J("runners", "c13", "TestRunners", 2500, 160000, 8)],
     "assumptions": ["the failing runner is chosen per case from all positions (each choice of failing runner, not only the first or last)"],
 }
 CHECKS["C14"] = {
     "level": "exploration",
-    "jobs": [J("close", "c14", "TestClose", 2500, 60000, 8)],
+    "jobs": [J("close", "c14", "TestClose", 2500, 200000, 8)],
     "assumptions": [
         "the harness owns the finishing order of the Close calls through per-closer gates; gates are opened independently of whether the closer has been entered, so a sequential implementation is not rejected",
         "the only wall-clock bound (10 s) applies after every gate is open, i.e. when all work is provably finishable",
@@ -178,7 +178,7 @@ CHECKS["C19"] = {
 CHECKS["C11"] = {
     "level": "exploration",
     "jobs": [
-        J("embedding", "c11", "TestEmbedding", 3000, 80000, 8),
+        J("embedding", "c11", "TestEmbedding", 3000, 200000, 8),
         J("static", "c11", "TestStaticUnexportedEmbedding", None, None),
         J("diamond", "c11", "TestStaticDiamondEmbedding", None, None),
     ],
@@ -247,10 +247,10 @@ CHECKS["C18"] = {
 CHECKS["C20"] = {
     "level": "exploration",
     "jobs": [
-        J("races", "c20", "TestRaces", 400, 6000, 6, race=True),
-        J("losfn-owned", "c20", "TestLoadOrStoreFnOwnedSchedule", 1500, 30000, 4, race=True),
-        J("map-free", "c20", "TestMapFreeSchedule", 800, 20000, 4, race=True),
-        J("sets-free", "c20", "TestSetsFreeSchedule", 600, 10000, 2, race=True),
+        J("races", "c20", "TestRaces", 400, 24000, 8, race=True),
+        J("losfn-owned", "c20", "TestLoadOrStoreFnOwnedSchedule", 1500, 150000, 4, race=True),
+        J("map-free", "c20", "TestMapFreeSchedule", 800, 100000, 4, race=True),
+        J("sets-free", "c20", "TestSetsFreeSchedule", 600, 50000, 2, race=True),
     ],
     "assumptions": [
         "the Go scheduler is not owned: races are searched by the race detector's happens-before analysis over generated scenarios under GOMAXPROCS 2/4/16 (exploration of schedules, not coverage); only the LoadOrStoreFn callback yield point is owned",
